@@ -497,8 +497,52 @@ def err_name(b, s):
     return '/'.join(names[:2]) or 'Err'
 
 
+def completion_outside_sending_order(F, R, ver):
+    """Acknowledgements are matched against one queue of outstanding sends. PUBACK / PUBREC / SUBACK / UNSUBACK arrive in the
+    order the packets were sent; a PUBCOMP arrives after the PUBREL, which is written when the *application* releases the
+    publish. An exchange that waits for PUBCOMP is therefore not part of the sending order: if it sits in the queue that is
+    consumed strictly from the front, a correct peer's PUBACK for a later publish (or the PUBCOMP of another exchange released
+    first) mismatches and the connection is torn down. Required shape: when pkt_ack_inner keeps awaiting-PUBCOMP entries in
+    the queue, the entry an acknowledgement answers is selected by position - skipping entries that wait for PUBCOMP, by id
+    for PUBCOMP itself - never blindly from an end of the queue."""
+    p = F.one(r'^%s::shared::MqttShared::pkt_ack_inner$' % ver)
+    keeps = []
+    for bi, t, ap in calls_on_field(p, r'VecDeque::<T, A>::(push_back|push_front|insert)$', 'inflight'):
+        og = Origin(p).of_operand(t['args'][-1])
+        if any(l[0] == 'agg' and l[1].endswith('AckType::Complete') for l in og):
+            keeps.append(bi)
+    takes = calls_on_field(p, r'VecDeque::<T, A>::(pop_front|pop_back|remove|swap_remove_back|swap_remove_front)$', 'inflight')
+    R.ob('C06.id-discipline', '%s|pkt_ack_inner|takes-the-answered-entry' % ver, bool(takes), 'no removal of an outstanding entry found in pkt_ack_inner')
+    if not keeps:
+        R.ob('C06.id-discipline', '%s|pkt_ack_inner|awaiting-PUBCOMP-entries-are-not-in-the-sending-order' % ver, True, 'exchanges that wait for PUBCOMP are kept outside the queue')
+        return
+    blind = [bi for bi, t, ap in takes if re.search(r'::(pop_front|pop_back)$', callee_name(t) or '')]
+    selective = True
+    for bi, t, ap in takes:
+        if bi in blind:
+            continue
+        og = Origin(p).of_operand(t['args'][1])
+        poss = [l[2] for l in og if l[0] == 'call' and l[1].endswith('Iterator::position') and isinstance(l[2], int)]
+        if not poss:
+            selective = False
+        for pb in poss:
+            # the predicate looks at the kind of the entry (AckType)
+            tp_ = p.blocks[pb]['term']
+            preds = [F.bodies[l[1]] for a_ in tp_['args'][1:] for l in Origin(p).of_operand(a_) if l[0] == 'agg' and l[1] in F.bodies]
+            tests_kind = False
+            for c in preds:
+                for x, y, s_ in c.assigns():
+                    if s_['rv']['k'] == 'discr' and (s_['rv'].get('adt') or '').endswith('shared::AckType'):
+                        tests_kind = True
+            selective = selective and tests_kind
+    R.ob('C06.id-discipline', '%s|pkt_ack_inner|awaiting-PUBCOMP-entries-are-not-in-the-sending-order' % ver, not blind and selective,
+         'an exchange that waits for PUBCOMP stays in the queue that acknowledgements are taken from blindly (%s): with a QoS 2 publish acknowledged by PUBREC and not yet released, the PUBACK of a later QoS 1 publish - or the PUBCOMP of another QoS 2 publish released first - is a packet-id mismatch and ends the connection although the peer is correct'
+         % ('pop from an end of the queue' if blind else 'the position predicate does not look at the entry kind'), p.loc(blind[0]) if blind else p.loc(takes[0][0]))
+
+
 def run(F, R):
     for ver in VERS:
+        completion_outside_sending_order(F, R, ver)
         type_before_complete(F, R, ver)
         is_match_table(F, R, ver)
         conversion_pairing(F, R, ver)
